@@ -229,6 +229,22 @@ m("C09-benign-hash-to-field-tuple", HASH, "    let (el, _) = bytes_le_to_fr(hash
 m("C08-benign-full-end-inline", FMT, "        for &i in indices.iter().filter(|&&i| i < start || i >= end) {", "        for &i in indices.iter().filter(|&&i| i >= end || i < start) {", "C08")
 m("C14-benign-keygen-tuple", PROTO, "    let identity_secret_hash = Fr::rand(&mut rng);\n    let id_commitment = poseidon_hash(&[identity_secret_hash]);\n    (identity_secret_hash, id_commitment)\n}\n\n// Generates a tuple (identity_trapdoor", "    let s = Fr::rand(&mut rng);\n    (s, poseidon_hash(&[s]))\n}\n\n// Generates a tuple (identity_trapdoor", "C14")
 
+# ---- behaviour-preserving refactors, second batch
+m("C06-benign-full-delete-early-return", FMT, "        if index < self.next_index {\n            self.set(index, H::default_leaf())?;\n            self.cached_leaves_indices[index] = 0;\n        }\n        Ok(())", "        if index >= self.next_index {\n            return Ok(());\n        }\n        self.set(index, H::default_leaf())?;\n        self.cached_leaves_indices[index] = 0;\n        Ok(())", "C06")
+m("C17-benign-full-delete-early-return", FMT, "        if index < self.next_index {\n            self.set(index, H::default_leaf())?;\n            self.cached_leaves_indices[index] = 0;\n        }\n        Ok(())", "        if index >= self.next_index {\n            return Ok(());\n        }\n        self.set(index, H::default_leaf())?;\n        self.cached_leaves_indices[index] = 0;\n        Ok(())", "C17")
+m("C15-benign-full-delete-early-return", FMT, "        if index < self.next_index {\n            self.set(index, H::default_leaf())?;\n            self.cached_leaves_indices[index] = 0;\n        }\n        Ok(())", "        if index >= self.next_index {\n            return Ok(());\n        }\n        self.set(index, H::default_leaf())?;\n        self.cached_leaves_indices[index] = 0;\n        Ok(())", "C15")
+m("C16-benign-put-map", SLED, "        match self.0.insert(key, value) {\n            Ok(_) => Ok(()),\n            Err(_e) => Err(PmtreeErrorKind::TreeError(TreeErrorKind::InvalidKey)),\n        }", "        self.0\n            .insert(key, value)\n            .map(|_| ())\n            .map_err(|_| PmtreeErrorKind::TreeError(TreeErrorKind::InvalidKey))", "C16")
+m("C18-benign-retry-bound-gt9", SLED, "        if tries >= 10 {", "        if tries > 9 {", "C18")
+m("C15-benign-pm-set-range-slice-flags", PMA, "        for i in start..start + v.len() {\n            self.cached_leaves_indices[i] = 1\n        }", "        for flag in &mut self.cached_leaves_indices[start..start + v.len()] {\n            *flag = 1;\n        }", "C15")
+m("C03-benign-recover-early-return", PUB, "        if external_nullifier_1 == external_nullifier_2 {\n            // We extract the two shares", "        if external_nullifier_1 != external_nullifier_2 {\n            return Ok(());\n        }\n        {\n            // We extract the two shares", "C03")
+m("C02-benign-rln-proof-named-conjuncts", PUB, "        Ok(verified && (self.tree.root() == proof_values.root) && (x == proof_values.x))", "        let root_ok = self.tree.root() == proof_values.root;\n        let x_ok = x == proof_values.x;\n        Ok(verified && root_ok && x_ok)", "C02")
+m("C19-benign-signed-compare-arms-reordered", GR, "        (false, false) => U256::from(a >= b),\n        (true, false) => uint!(0_U256),\n        (false, true) => uint!(1_U256),\n        (true, true) => U256::from(a >= b),", "        (true, true) => U256::from(a >= b),\n        (false, true) => uint!(1_U256),\n        (true, false) => uint!(0_U256),\n        (false, false) => U256::from(a >= b),", "C19")
+m("C04-benign-root-before-y", PROTO, "    // y share\n    let a_0 = rln_witness.identity_secret;\n    let a_1 = poseidon_hash(&[a_0, rln_witness.external_nullifier, rln_witness.message_id]);\n    let y = a_0 + rln_witness.x * a_1;\n\n    // Nullifier\n    let nullifier = poseidon_hash(&[a_1]);\n\n    // Merkle tree root computations\n    let root = compute_tree_root(\n        &rln_witness.identity_secret,\n        &rln_witness.user_message_limit,\n        &rln_witness.path_elements,\n        &rln_witness.identity_path_index,\n    );\n", "    // Merkle tree root computations\n    let root = compute_tree_root(\n        &rln_witness.identity_secret,\n        &rln_witness.user_message_limit,\n        &rln_witness.path_elements,\n        &rln_witness.identity_path_index,\n    );\n\n    // y share\n    let a_0 = rln_witness.identity_secret;\n    let a_1 = poseidon_hash(&[a_0, rln_witness.external_nullifier, rln_witness.message_id]);\n    let y = a_0 + rln_witness.x * a_1;\n\n    // Nullifier\n    let nullifier = poseidon_hash(&[a_1]);\n", "C04")
+m("C11-benign-buffer-local", FFI, "                Ok(()) => {\n                    unsafe { *$output_arg = Buffer::from(&output_data[..]) };\n                    std::mem::forget(output_data);\n                    true\n                }\n                Err(err) => {\n                    std::mem::forget(output_data);\n                    eprintln!(\"execution error: {err}\");\n                    false\n                }\n            }\n        }\n    };\n    ($instance:expr, $method:ident, $output_arg:expr, $( $arg:expr ),* ) => {", "                Ok(()) => {\n                    let buffer = Buffer::from(&output_data[..]);\n                    unsafe { *$output_arg = buffer };\n                    std::mem::forget(output_data);\n                    true\n                }\n                Err(err) => {\n                    std::mem::forget(output_data);\n                    eprintln!(\"execution error: {err}\");\n                    false\n                }\n            }\n        }\n    };\n    ($instance:expr, $method:ident, $output_arg:expr, $( $arg:expr ),* ) => {", "C11")
+m("C13-benign-signal-end-local", PUB, "        let signal: Vec<u8> = serialized[all_read..all_read + signal_len].to_vec();\n\n        let verified = verify_proof(&self.verification_key, &proof, &proof_values)?;\n        let x = hash_to_field(&signal);", "        let signal_end = all_read + signal_len;\n        let signal: Vec<u8> = serialized[all_read..signal_end].to_vec();\n\n        let verified = verify_proof(&self.verification_key, &proof, &proof_values)?;\n        let x = hash_to_field(&signal);", "C13")
+m("C09-benign-update-slice", HASH, "    hasher.update(signal);\n    hasher.finalize(&mut hash);", "    hasher.update(&signal[..]);\n    hasher.finalize(&mut hash);", "C09")
+m("C08-benign-opt-end-inline", OMT, "        let end = start + leaves_vec.len();", "        let n = leaves_vec.len();\n        let end = start + n;", "C08")
+
 
 def main():
     os.makedirs(OUT, exist_ok=True)
